@@ -6,6 +6,7 @@ import sys, subprocess, os
 prop, mf = sys.argv[1], sys.argv[2]
 env = dict(os.environ, GOFLAGS='-mod=mod', GOPROXY='off', GOSUMDB='off', GOTOOLCHAIN='local')
 REPO = os.environ.get('VERIF_REPO', '/repo')
+env.setdefault('VERIF_EVIDENCE_SUFFIX', '.mut')  # a mutant run never overwrites the evidence of the real tree
 blocks = open(mf).read().split('\n====\n')
 caught = missed = 0
 for b in blocks:
